@@ -442,6 +442,7 @@ def run(chk):
     connect_rule(chk, repo)
     progress_rule(chk, repo)
     agree_rule(chk, repo)
+    batch_rule(chk, repo)
 
 
 def latch_rule(chk, repo, rule="C03.latch"):
@@ -616,3 +617,28 @@ def agree_rule(chk, repo, rule="C03.agree"):
         else:
             chk.ok(rule, lst[0][0], f"`{gname}`: {len(lst)} validation site(s), one normalisation {sorted(ref) or '(none)'}")
     chk.expect_count(rule, n, 1, "regex validations in HttpPayloadParser.feed_data")
+
+
+def batch_rule(chk, repo, rule="C03.batch"):
+    """Messages completed before a malformed one are produced however the stream was cut: feed_data() collects the messages of one read in a
+    local list and raises on the first malformed one, so the caller's error path has to get that list from somewhere (known finding F122)."""
+    WP = "aiohttp/web_protocol.py"
+    dr = repo.func(WP, "RequestHandler.data_received")
+    feeds = [c for c in prog.calls_in(dr.node) if norm.raw(c.func) == "self._parser.feed_data"]
+    if not feeds:
+        chk.analysis_error("C03.batch: RequestHandler.data_received no longer feeds the request parser")
+        return
+    for c in feeds:
+        hs = [h for _t, h in K.enclosing_try_handlers(c) if "HttpProcessingError" in PC.handler_types(h)]
+        subst = [a for h in hs for a in ast.walk(h) if isinstance(a, ast.Assign) and norm.raw(a.targets[0]) == "messages"]
+        if not hs or not subst:
+            chk.analysis_error("C03.batch: the error path that substitutes the 400 message was not found")
+            continue
+        en = hs[0].name
+        carried = any(isinstance(x, ast.Starred) or (isinstance(x, ast.Attribute) and isinstance(x.value, ast.Name) and x.value.id == en and x.attr not in ("message", "code", "headers", "args"))
+                      for a in subst for x in ast.walk(a.value))
+        if carried:
+            chk.ok(rule, subst[0], "the requests parsed in the same read before the malformed one are queued in front of the 400")
+        else:
+            chk.violation(rule, subst[0], "messages = [<400 _ErrInfo>]", "the messages the parser completed before the error, in front of the _ErrInfo",
+                          "when a read holds valid requests followed by a malformed message, HttpParser.feed_data raises and its local list of completed messages is lost: the handler is never invoked and only the 400 is sent, while the same bytes in two reads get the requests handled (200) and then the 400 - which requests are produced depends on the segmentation")
